@@ -9,6 +9,7 @@ An index is a list of entry records:
   {"k":"iarr","shape":[..],"v":[..],"m":[..]|None}   int array (ndarray or Scalar)
   {"k":"barr","shape":[..],"v":[..],"m":[..]|None}   bool array (ndarray or Boolean)
   {"k":"vec","n":n,"shape":[..],"v":[..flat, last axis n..],"m":[..]|None} Pair/Vector
+  {"k":"bad","what":"float|str|farr|fobj"}  an entry of no valid kind (always IndexError)
 
 ref_getitem(shape, entries) -> ("err",) or (out_shape, src) where src is a list,
 row-major over out_shape, of (flat source index or None, masked_by_index).
@@ -71,9 +72,39 @@ def expand(entries):
     return out
 
 
+def ref_scalar(entries):
+    """Shapeless objects: only True / False / masked Boolean (at most one of these),
+    None, Ellipsis and the full slice are accepted. None adds a unit axis, False a
+    zero-length axis, a masked Boolean masks the result; nothing else changes."""
+    out_shape = []
+    masked = False
+    nbool = nell = 0
+    for e in entries:
+        k = e['k']
+        if k == 'bool':
+            nbool += 1
+            if e['m']:
+                masked = True
+            elif not e['v']:
+                out_shape.append(0)
+        elif k == 'none':
+            out_shape.append(1)
+        elif k == 'ell':
+            nell += 1
+        elif k == 'slice' and e['a'] is None and e['b'] is None and e['c'] is None:
+            pass
+        else:
+            return ('err',)
+    if nbool > 1 or nell > 1:
+        return ('err',)
+    return (out_shape, [((None, True) if masked else (0, False))] * _prod(out_shape))
+
+
 def ref_getitem(shape, entries):
     shape = list(shape)
     rank = len(shape)
+    if rank == 0:
+        return ref_scalar(entries)
     ents = expand(entries)
     if sum(1 for e in ents if e['k'] == 'ell') > 1:
         return ('err',)
@@ -105,6 +136,8 @@ def ref_getitem(shape, entries):
         elif k == 'none':
             pieces.append(('new',))
         elif k == 'slice':
+            if e['c'] == 0:
+                return ('err',)
             rng = list(range(shape[ax]))[slice(e['a'], e['b'], e['c'])]
             pieces.append(('axis', ax, rng))
             ax += 1
